@@ -14,6 +14,7 @@ MODULES = {
     "C13": "h_walk",
     "C14": "h_glob",
     "C16": "h_fileobj",
+    "C17": "h_route",
     "C01": "h_fs",
     "C05": "h_fs",
     "C06": "h_fs",
